@@ -36,6 +36,10 @@ fn models(tier: Tier) -> Vec<Model> {
             v.extend(gen::m10(1));
         }
     }
+    // half-reified constraints must not tighten anything while the literal is free: a stride of
+    // all reified cases and every half-reified cumulative (all propagation methods)
+    v.extend(crate::props::c09::reified_models(tier).into_iter().step_by(if tier.quick() { 3 } else { 1 }));
+    v.extend(crate::props::c09::reified_cumulative_models(tier).into_iter());
     v
 }
 
